@@ -216,7 +216,13 @@ pub struct Agg {
     pub violations: BTreeMap<u64, Violation>,
     /// known findings matched: signature -> (count, first description)
     pub known: BTreeMap<String, (u64, String)>,
+    /// fingerprints of the first DETERMINISM_SAMPLE runs, for the built-in re-execution check
+    pub low_fps: BTreeMap<u64, u64>,
+    /// (pairs checked, mismatching run indices) of the built-in determinism re-execution
+    pub determinism: (u64, Vec<u64>),
 }
+
+pub const DETERMINISM_SAMPLE: u64 = 128;
 
 #[derive(Clone, Debug)]
 pub struct Violation {
@@ -242,6 +248,7 @@ impl Agg {
             self.samples.remove(&k);
         }
         self.violations.append(&mut o.violations);
+        self.low_fps.append(&mut o.low_fps);
         for (k, (n, d)) in o.known {
             let e = self.known.entry(k).or_insert((0, d));
             e.0 += n;
@@ -251,6 +258,9 @@ impl Agg {
     pub fn note_run(&mut self, idx: u64, fp: u64, nontrivial: bool) {
         self.runs += 1;
         self.batch_fp = self.batch_fp.wrapping_add(mix(idx, fp));
+        if idx < DETERMINISM_SAMPLE {
+            self.low_fps.insert(idx, fp);
+        }
         if nontrivial {
             self.nontrivial_fps.push(fp);
         }
@@ -264,6 +274,23 @@ impl Agg {
                 self.samples.remove(&k);
             }
         }
+    }
+
+    /// Built-in determinism proof on a sample: re-execute the first runs (same
+    /// seed, same index, fresh state) and compare event-log fingerprints.
+    pub fn recheck_determinism(&mut self, rerun: impl Fn(u64) -> u64) {
+        if !self.violations.is_empty() {
+            return;
+        }
+        let mut bad = Vec::new();
+        let mut n = 0;
+        for (idx, fp) in &self.low_fps {
+            n += 1;
+            if rerun(*idx) != *fp {
+                bad.push(*idx);
+            }
+        }
+        self.determinism = (n, bad);
     }
 
     pub fn distinct_nontrivial(&mut self) -> u64 {
@@ -539,6 +566,13 @@ pub fn finish_as(rep: Report, mut agg: Agg, file_stem: &str) -> i32 {
         println!("  detail: {}", v.detail);
         replay_paths.push(path.display().to_string());
     }
+    if !agg.determinism.1.is_empty() {
+        // the same seed and run index gave two different event logs: the harness (or the code under
+        // test) has a source of nondeterminism the simulator does not own -- nothing this run reports
+        // can be replayed, so it is a harness error, not a verdict
+        println!("harness error: re-executing runs {:?} (same seed) gave different event-log fingerprints", &agg.determinism.1[..agg.determinism.1.len().min(8)]);
+        exit = exit.max(2);
+    }
     let wall = rep.wall_s.max(1e-9);
     let mut coverage = json!({
         "evaluations": agg.runs,
@@ -553,6 +587,8 @@ pub fn finish_as(rep: Report, mut agg: Agg, file_stem: &str) -> i32 {
         "distinct_states": agg.states.len(),
         "components": rep.components,
         "batch_fingerprint": format!("{:016x}", agg.batch_fp),
+        "determinism_pairs_checked": agg.determinism.0,
+        "determinism_mismatches": agg.determinism.1.len(),
         "known_findings_matched": agg.known.iter().map(|(k, (n, _))| json!({"signature": k, "occurrences": n})).collect::<Vec<_>>(),
         "replays": replay_paths,
     });
